@@ -148,6 +148,9 @@ pub struct OeCfg {
     /// Some("") = no image field at all)
     #[serde(default)]
     pub image: Option<String>,
+    /// tiered kinds: the price of stage i of the whitelist created with the world (empty = `wl_price` for all)
+    #[serde(default)]
+    pub wl_stage_prices: Vec<u128>,
 }
 pub const OE_TOKEN_URI: &str = "ipfs://bafybeigi3bwpvyvsmnbj46ra4hyffcxdeaj6ntfk5jpic5mx27x6ih2qvq/images/1.png";
 pub const OE_IMAGE: &str = "https://example.com/editions/one.png";
@@ -181,6 +184,7 @@ impl OeCfg {
             spares: vec![],
             onchain: false,
             image: None,
+            wl_stage_prices: vec![],
         }
     }
 }
@@ -602,10 +606,13 @@ impl OeWorld {
         let now = chain::now(&self.app);
         let members: Vec<&str> = WL_MEMBERS.iter().map(|m| m.0).collect();
         let flexm: Vec<Value> = members.iter().map(|m| json!({"address": m, "mint_count": self.cfg.wl_flex_count})).collect();
+        // per-stage prices apply to the whitelist created with the world (its windows are cfg.wl_windows)
+        let stage_prices: Vec<u128> = if windows == self.cfg.wl_windows.as_slice() { self.cfg.wl_stage_prices.clone() } else { vec![] };
         let stages: Vec<Value> = windows
             .iter()
             .enumerate()
             .map(|(i, (s, e))| {
+                let price = stage_prices.get(i).copied().unwrap_or(price);
                 json!({"name": format!("stage{}", i), "start_time": ts(now + s * S), "end_time": ts(now + e * S),
                        "mint_price": coinv(price, denom), "per_address_limit": limit, "mint_count_limit": stage_limit})
             })
